@@ -285,6 +285,14 @@ func (b *Builder) item(recv reflect.Value, it *Node) *jen.Statement {
 		}
 		panic("bad token type " + it.T)
 	case "cmt":
+		if b.Form != nil && b.Form(it, false) == "funcvariant" {
+			// Commentf: the text arrives partly through the format string, partly through arguments
+			cut := len(it.V) / 2
+			for cut > 0 && cut < len(it.V) && it.V[cut]&0xC0 == 0x80 {
+				cut++ // not inside a UTF-8 sequence
+			}
+			return call(recv, "Commentf", strings.ReplaceAll(it.V[:cut], "%", "%%")+"%s", it.V[cut:])
+		}
 		return call(recv, "Comment", it.V)
 	case "tag":
 		return call(recv, "Tag", it.M)
